@@ -22,6 +22,10 @@ Classes
                                   GAlias   the test is made on an alias (`a = b = psMalloc`, `x = p;`)
                                   GCallee  a local that is only handed to library functions which themselves test that
                                            parameter for NULL before using it (and to psFree)
+    GuardedButSwallowed    a NULL test exists, but the branch taken when the allocation failed neither leaves the function
+                            (return/goto/break) nor records an error: the function carries on with a partially built
+                            object (`if (p == NULL) { /* trace */ }`, `if (p != NULL) { fill }` without else).  Not clean
+                            unless coq/Res/ResModel.v lists the key in benign_swallowed with a reason
     Returned               handed unchecked to the caller (`return psMalloc(..)` / `return p`)
     Discarded              `f(..);` - the value of an allocating function is dropped (psDynBufInit style: the failure is
                             latched by the callee's own test); nothing at the site can use it
@@ -326,6 +330,82 @@ def reassigned(text, aliases):
     return None
 
 
+
+# ----------------------------------------------------------------------------- what the failing branch of a guard does
+LEAVES = re.compile(r"\b(?:return|goto|break|continue|exit|abort)\b")
+SETS_ERR = re.compile(r"(?:\b\w*(?:err|Err|rc|ret|res|status|fail|result|rv)\w*\s*(?:=(?!=)|\+\+|\|=)|->\s*err\s*(?:=(?!=)|\+\+))")
+
+def cond_polarity(cond, aliases):
+    """'pos': the condition is true when the pointer is NULL (the if-body is the failing branch),
+       'neg': true when it is not NULL (the else part / the code after the block is the failing branch), None: cannot tell"""
+    NUL = r"(?:NULL|0|PS_NULL)\b"
+    pos = neg = False
+    for a in aliases:
+        A = alias_re(a)
+        if re.search(r"!\s*\(?\s*" + A + r"\s*\)?(?!\s*(?:->|\[|\(|\.))", cond) or re.search(A + r"\s*\)*\s*==\s*" + NUL, cond) or \
+           re.search(NUL + r"\s*==\s*\(?\s*" + A, cond):
+            pos = True
+        if re.search(A + r"\s*\)*\s*!=\s*" + NUL, cond) or re.search(NUL + r"\s*!=\s*\(?\s*" + A, cond) or \
+           re.search(r"(?:&&|\|\||^|\()\s*" + A + r"\s*(?=$|&&|\|\||\))", cond):
+            neg = True
+    if pos and neg: return None
+    if pos: return None if "&&" in cond else "pos"       # `p == NULL && x`: only part of the failing paths
+    if neg: return None if "||" in cond else "neg"
+    return None
+
+
+def block_after(t, i, fend):
+    """statement or block starting at t[i:] (after an if-head or `else`): returns (text, end offset)"""
+    j = i
+    while j < fend and t[j].isspace(): j += 1
+    if j < fend and t[j] == "{":
+        e = match_paren(t, j, "{", "}")
+        return t[j + 1:e], e + 1
+    e = j; pd = 0
+    while e < fend:
+        if t[e] == "(": pd += 1
+        elif t[e] == ")": pd -= 1
+        elif t[e] == ";" and pd <= 0: break
+        e += 1
+    return t[j:e + 1], e + 1
+
+
+def swallowed(t, head_end, fend, pol):
+    """t[head_end] is just behind the `)` that closes the if-condition.  Does the branch taken when the allocation failed
+    neither leave the function nor record an error?  Returns a reason string or None."""
+    body, e = block_after(t, head_end, fend)
+    if pol == "pos":
+        if LEAVES.search(body) or SETS_ERR.search(body):
+            return None
+        return "the NULL branch neither leaves the function nor records an error"
+    # pol == neg: the failing path is the else part, or simply what follows the guarded block
+    m = re.match(r"\s*else\b", t[e:fend])
+    if m:
+        eb, _ = block_after(t, e + m.end(), fend)
+        if LEAVES.search(eb) or SETS_ERR.search(eb) or re.match(r"\s*if\b", eb):
+            return None
+        return "the else branch taken on NULL neither leaves the function nor records an error"
+    # what follows the guarded block inside the enclosing block
+    k = e; d = 0
+    while k < fend:
+        if t[k] == "{": d += 1
+        elif t[k] == "}":
+            if d == 0: break
+            d -= 1
+        k += 1
+    tail = t[e:k].strip()
+    first = re.split(r";", tail, 1)[0] if tail else ""
+    if not tail and k >= fend - 1:
+        return None                       # nothing follows: the function ends here
+    if tail and (re.match(r"\s*(?:return|goto|break|continue)\b", first) or SETS_ERR.search(first)):
+        return None                       # `if (p) { .. }  return status;`  /  `ctx->err = 1;`
+    if not tail:
+        # the enclosing block ends; look one level further out for an immediate leave
+        rest = t[k + 1:fend].strip()
+        if not rest or re.match(r"(?:return|goto|break|continue)\b", rest) or rest.startswith("}"):
+            return None
+    return "the guarded block is skipped on NULL and the function carries on (no else branch)"
+
 # ----------------------------------------------------------------------------- per-site analysis
 class Site:
     pass
@@ -423,6 +503,18 @@ def analyse(t, fstart, fend, call_s, call_e, allocs_re):
         m3 = re.match(r"\s*\)\s*(?:\)|&&|\|\|)", suffix) and re.search(r"(?:\bif|\bwhile|&&|\|\|)\s*\(\s*\(\s*" + alias_re(aliases[-1]) + r"\s*=\s*(?:\([^()]*\)\s*)?$", prefix)
         if m1 or m2 or m3:
             res["cls"] = "GuardedBeforeUse"; res["how"] = "GInline"; res["why"] = "test in the allocating condition"
+            if head.group(1) == "if" and stmt_e < fend and t[stmt_e] in "{;":
+                # end of the condition = the `)` matching the `(` that follows `if`
+                o = t.index("(", stmt_s + head.end(1) - 0) if "(" in t[stmt_s:stmt_e] else -1
+                c = match_paren(t, o) if o >= 0 else -1
+                cond = t[o + 1:c] if c > o else ""
+                pol = ("pos" if m1.group(1) == "==" else "neg") if m1 else ("pos" if m2 else "neg")
+                if ("&&" in cond and pol == "pos") or ("||" in cond and pol == "neg"):
+                    pol = None
+                if pol and c > 0:
+                    why = swallowed(t, c + 1, fend, pol)
+                    if why:
+                        res["cls"] = "GuardedButSwallowed"; res["why"] = why
             return res
         res["cls"] = "Unknown"; res["why"] = "allocation inside a condition without a recognised test"
         return res
@@ -512,6 +604,17 @@ def walk(t, pos, fend, aliases, res, allocs_re):
                 res["cls"] = "GuardedBeforeUse"
                 res["how"] = "GTest" if tst[1] == primary else "GAlias"
                 res["why"] = "test of %s" % tst[1]
+                if sk == "cond" and hd and hd[0] == "if":
+                    pol = cond_polarity(hd[1], aliases)
+                    if pol:
+                        # offset of the `)` closing this if-condition inside t
+                        mo = re.search(r"\bif\s*\(", t[cs:ce + 1])
+                        if mo:
+                            o = cs + mo.end() - 1
+                            c = match_paren(t, o)
+                            why = swallowed(t, c + 1, fend, pol)
+                            if why:
+                                res["cls"] = "GuardedButSwallowed"; res["why"] = "test of %s: %s" % (tst[1], why)
                 return res
             if use:
                 res["cls"] = "UsedUnguarded"; res["kind"] = use[1]; res["why"] = ("%s %s" % (use[1], use[2])).strip()
@@ -661,6 +764,9 @@ def scan(files, alloc_names, wrapper_defs=frozenset()):
                 ordn += 1
                 r = analyse(t, fs, fe, m.start(), ce, allocs_re)
                 r["returns_fresh"] = returns_fresh(t, name, fs, fe, m.start(), ce, r)
+                if r.get("cls") == "GuardedButSwallowed" and r["returns_fresh"]:
+                    # `if (p) { fill } return p;` : the failing path ends in `return NULL` - the caller is the one who is told
+                    r["cls"] = "GuardedBeforeUse"; r["why"] = "test, then the (NULL) result is returned to the caller"
                 s = dict(r)
                 s.update(file=rel, func=fname, ord=ordn, alloc=an, line=t.count("\n", 0, m.start()) + 1,
                          key="%s:%s#%d" % (os.path.basename(rel), fname, ordn), fstart=fs, fend=fe)
@@ -776,6 +882,7 @@ def main():
     out.append("Inductive use_kind := UField | UIndex | UDeref | UMemDest | UStrDest | UArg.")
     out.append("Inductive site_class :=")
     out.append("  | GuardedBeforeUse (h : guard_how)")
+    out.append("  | GuardedButSwallowed")
     out.append("  | Returned | Discarded | StoredUnchecked")
     out.append("  | UsedUnguarded (k : use_kind)")
     out.append("  | Unknown.")
